@@ -15,14 +15,16 @@ next chunk, every path of terminate backfills, encode_header passes its Backref 
 path, and Default (no placeholder) state is only the transient swapped-out value; the producer-side entry
 points never clear or take the iovec while a header is pending; (R9.3) consumer() of both codecs is the
 iovec's ConsumingIovec (the only drain path, clamped by C04) and finish() returns the very iovec that was
-fed, after terminate.
+fed, after terminate; (R9.4) what can be drained is exactly the stable prefix and draining keeps the logical
+slice indices of pending headers right: the funnel, clamp and counter rules of C04/C03 (R4.1-R4.3, R4.6, R3.2,
+R3.3) are re-evaluated here.
 NOT decided: the numeric lag bound (one arena chunk + one 64008-byte chunk) and that drained + finished equals
 the complete output (value-level; the prefix-stability part reduces to C04's rules).
 """
 
 ASSUMPTIONS = ['C04 (pending placeholders are the only blockers)', 'typestate witnesses W1/W8 (thorough tier)']
 
-FLOORS = {'R9.1': 10, 'R9.2': 6, 'R9.3': 4}
+FLOORS = {'R9.1': 10, 'R9.2': 6, 'R9.3': 4, 'R9.4': 30}
 
 ES = 'hcobs::encoder::EncoderState'
 
@@ -102,4 +104,22 @@ def r9_3(cx):
             cx.check(gated, 'finish-gated:Decoder', f, None, 'Ok(iovec) only on the Ok edge of terminate', fail_detail='Decoder::finish returns Ok without terminate having succeeded')
 
 
-RULES = [('R9.1', r9_1), ('R9.2', r9_2), ('R9.3', r9_3)]
+def r9_4(cx):
+    """what the consumer can drain is exactly the stable prefix and draining keeps the logical indices right (R4.1-R4.3, R4.6, R3.2, R3.3)"""
+    from . import c04, c03
+    from engine.woodlint.db import Unrecognised
+    sub = cx.__class__(cx.prog, cx.profile, cx.prop)
+    for rid, f in (('R4.1', c04.r4_1), ('R4.2', c04.r4_2), ('R4.3', c04.r4_3), ('R4.6', c04.r4_6), ('R3.2', c03.r3_2), ('R3.3', c03.r3_3)):
+        sub.rule = rid
+        try:
+            f(sub)
+        except Unrecognised as e:
+            sub.unrecognised('anchor', detail='rule cannot be evaluated on this tree: %s' % e)
+    for rec in sub.records:
+        rec = dict(rec)
+        rec['instance'] = rec['rule'] + ':' + rec['instance']
+        rec['rule'] = cx.rule
+        cx.records.append(rec)
+
+
+RULES = [('R9.1', r9_1), ('R9.2', r9_2), ('R9.3', r9_3), ('R9.4', r9_4)]
